@@ -1,7 +1,7 @@
 (* C05 — row access is exact for every on-disk encoding and chunking.
    Property theorems only: each is closed by `exact <lemma>`. *)
-From Coq Require Import List Arith ZArith Bool.
-From CTM Require Import Base.Sx Model.Sparse Proofs.SparseP.
+From Coq Require Import List Arith ZArith Bool Lia.
+From CTM Require Import Base.Sx Model.Sparse Model.Transpose Proofs.SparseP Proofs.SparseCscP.
 Import ListNotations.
 
 (* for every number of rows n and chunk size c >= 1 the iterator's chunk list exists
@@ -46,12 +46,76 @@ Theorem c05_iterate_dense_exact : forall (d : dense) nr c,
 Proof. exact iterate_dense_exact. Qed.
 Print Assumptions c05_iterate_dense_exact.
 
+(* the CSC path: AnnDataRowIterator on a CSC matrix (csc_to_csr_on_disk into scratch,
+   then the CSR iterator), for every row chunk size c >= 1, every elements_at_a_time E
+   and load chunk sizes L, Lc >= 1 of the conversion: the blocks are chained from 0 to
+   n_rows and are the row ranges of M = transpose of the column-major dense view.
+   (idx m <> []: a CSC matrix without any stored value makes the conversion raise -
+   finding F2, c13_transpose_no_value_rejects) *)
+Theorem c05_iterate_csc_exact : forall m n_rows n_cols c E L Lc,
+  wf_comp m n_rows -> length (ptr m) = S n_cols -> length (dat m) = length (idx m) ->
+  no_dup_minor m -> idx m <> [] -> 1 <= c -> 1 <= L -> 1 <= Lc ->
+  let M := map (fun r => map (fun j => cell m j r) (seq 0 n_cols)) (seq 0 n_rows) in
+  exists bl, iterate_csc m n_rows n_cols c E L Lc = Ok bl /\
+    chained 0 (map fst bl) n_rows /\
+    Forall (fun b => snd (fst b) - fst (fst b) <= c) bl /\
+    Forall (fun b => snd b = slice M (fst (fst b)) (snd (fst b))) bl /\
+    concat (map snd bl) = M.
+Proof. exact iterate_csc_exact. Qed.
+Print Assumptions c05_iterate_csc_exact.
+
+(* dense, CSR and CSC encodings of one matrix d are read as the same rows, whatever
+   the three chunk sizes and the budgets of the CSC conversion *)
+Theorem c05_encodings_agree : forall (d : dense) mr mc nr nc c1 c2 c3 E L Lc,
+  length d = nr ->
+  wf_csr mr nr nc -> no_dup_minor mr -> dense_of mr nr nc = d ->
+  wf_comp mc nr -> length (ptr mc) = S nc -> length (dat mc) = length (idx mc) ->
+  no_dup_minor mc -> idx mc <> [] ->
+  map (fun r => map (fun j => cell mc j r) (seq 0 nc)) (seq 0 nr) = d ->
+  1 <= c1 -> 1 <= c2 -> 1 <= c3 -> 1 <= L -> 1 <= Lc ->
+  exists b1 b2 b3,
+    iterate_dense d nr c1 = Ok b1 /\ iterate_csr mr nr nc c2 = Ok b2 /\
+    iterate_csc mc nr nc c3 E L Lc = Ok b3 /\
+    concat (map snd b1) = d /\ concat (map snd b2) = d /\ concat (map snd b3) = d.
+Proof. exact encodings_agree. Qed.
+Print Assumptions c05_encodings_agree.
+
+(* NOT YET PROVED (covered by the correspondence check only):
+   c05_get_batch_exact   : duplicate-free in-range row list -> csr_get_batch / dense_get_batch
+                           return those rows in the requested order
+   c05_get_batch_rejects : a duplicate, an out-of-range index or the empty list -> Err *)
+
 (* non-vacuity: a 3 x 4 CSR matrix with an empty row satisfies the hypotheses *)
 Definition c05_ex : comp :=
   {| ptr := [0; 3; 3; 6]; idx := [1; 2; 3; 0; 1; 3]; dat := [1; 2; 3; 8; 9; 11]%Z |}.
+<<<<<<< HEAD
 (* c05_example_wf: being rewritten (its proof script ran away) *)
+=======
+Example c05_example_wf : wf_csr c05_ex 3 4 /\ no_dup_minor c05_ex.
+Proof.
+  split.
+  - unfold wf_csr, wf_comp, c05_ex; cbn [ptr idx dat hd last length mono].
+    split; [split; [reflexivity | split; [reflexivity | split]] | split; reflexivity].
+    + lia.
+    + repeat (apply Forall_cons; [lia|]). apply Forall_nil.
+  - intros j Hj. unfold c05_ex in *; cbn [ptr idx dat length] in *.
+    assert (D : j = 0 \/ j = 1 \/ j = 2) by lia.
+    destruct D as [ -> | [ -> | -> ] ]; vm_compute.
+    + repeat (apply NoDup_cons; [cbn [In]; lia|]). apply NoDup_nil.
+    + apply NoDup_nil.
+    + repeat (apply NoDup_cons; [cbn [In]; lia|]). apply NoDup_nil.
+Qed.
+>>>>>>> agent-sparse
 Example c05_example_blocks :
   iterate_csr c05_ex 3 4 2 =
   Ok [(0, 2, [[0; 1; 2; 3]; [0; 0; 0; 0]]%Z); (2, 3, [[8; 9; 0; 11]]%Z)] /\
   dense_of c05_ex 3 4 = [[0; 1; 2; 3]; [0; 0; 0; 0]; [8; 9; 0; 11]]%Z.
 Proof. vm_compute. split; reflexivity. Qed.
+(* the same matrix as CSC (4 columns, 3 rows), read through the conversion with the
+   smallest budgets *)
+Definition c05_ex_csc : comp :=
+  {| ptr := [0; 1; 3; 4; 6]; idx := [2; 0; 2; 0; 0; 2]; dat := [8; 1; 9; 2; 3; 11]%Z |}.
+Example c05_example_csc :
+  iterate_csc c05_ex_csc 3 4 2 1 1 1 =
+  Ok [(0, 2, [[0; 1; 2; 3]; [0; 0; 0; 0]]%Z); (2, 3, [[8; 9; 0; 11]]%Z)].
+Proof. vm_compute. reflexivity. Qed.
